@@ -11,7 +11,7 @@ VERIF = os.path.dirname(os.path.dirname(os.path.abspath(__file__)))
 REPO = os.environ.get("VERIF_REPO", "/repo")
 GUARD = "CELLO_VERIF"
 BASE_CFLAGS = ["-I", os.path.join(REPO, "include"), "-I", os.path.join(REPO, "src"), "-I", os.path.join(VERIF, "lib"),
-               "-std=gnu99", "-DCELLO_NSTRACE", "-D" + GUARD]
+               "-std=gnu99", "-DCELLO_NSTRACE"]
 CONFIGS = {
     "default": [],
     "ndebug": ["-DCELLO_NDEBUG"],
@@ -20,8 +20,7 @@ CONFIGS = {
     "ndebug_nocache": ["-DCELLO_NDEBUG", "-DCELLO_CACHE=0"],
     "ndebug_ngc": ["-DCELLO_NDEBUG", "-DCELLO_NGC"],
 }
-CBMC_BASE = ["--object-bits", "12", "--max-field-sensitivity-array-size", "200",
-             "--drop-unused-functions", "--unwinding-assertions", "--no-standard-checks",
+CBMC_BASE = [             "--drop-unused-functions", "--unwinding-assertions", "--no-standard-checks",
              "--json-ui", "--trace", "--verbosity", "8"]
 CHECK_FLAGS = {
     "bounds": "--bounds-check", "pointer": "--pointer-check", "div0": "--div-by-zero-check",
@@ -38,7 +37,7 @@ class Ob:
                  entry="harness", unwind=24, unwindset=(), checks=(), extra=(),
                  tiers=("quick", "thorough"), timeout=900, mem_gb=6, known=None,
                  desc="", link="all", libdefs=(), native=True, fp_restrict=(), backend=None,
-                 nowitness=False, srcs_extra=(), filedefs=None):
+                 nowitness=False, srcs_extra=(), filedefs=None, gen=None, object_bits=12, replace_calls=(), fs_size=200, native_link=None):
         self.name = name
         self.harness = harness          # path relative to /verif/harness
         self.defs = list(defs)          # -D for the harness TU
@@ -62,6 +61,11 @@ class Ob:
         self.backend = backend          # None (minisat) | 'cadical' | 'kissat' | 'cvc5' | 'z3'
         self.nowitness = nowitness
         self.srcs_extra = list(srcs_extra)  # extra /verif/lib/*.c to link
+        self.object_bits = object_bits
+        self.native_link = native_link  # what the native replay links (default: same as link)
+        self.fs_size = fs_size          # --max-field-sensitivity-array-size
+        self.replace_calls = list(replace_calls)   # goto-instrument --replace-calls f:g (assume-guarantee split: callee checked by its own obligation)
+        self.gen = gen                  # generator(repo, workdir) -> dict; writes headers into workdir (on the include path)
         self.filedefs = dict(filedefs or {})  # {'String.c': ['-Drealloc=vcap_realloc', ...]} extra flags for single library TUs
 
 
